@@ -500,6 +500,13 @@ def run(rep):
             return float('nan')
 
     nd = 250 if quick else 6000
+    if not (hasattr(gk, '_intval') and hasattr(gk, '_intsea') and hasattr(gk, '_val') and hasattr(gk, '_sea')):
+        # the dispatch model is stated in terms of these four private methods: without them it cannot be run against the
+        # code; the oracle streams below still evaluate the property on the public GPD functions
+        nd = 0
+        gk_internals_missing = 'GoloskokovKrollCFF no longer has _val/_sea/_intval/_intsea: the dispatch correspondence (gk-dispatch) cannot be run'
+    else:
+        gk_internals_missing = None
     for x, eta, t, Q2, cls in gk_points(rng, nd):
         j = rng.randrange(4)
         r = rng.random()
@@ -839,6 +846,8 @@ def run(rep):
 
     rep.coverage['gk_worst_err_over_tol'] = worst
     rep.coverage['gk_reference_quadrature_unreliable_skipped'] = quad_bad
+    if gk_internals_missing and not rep.violations:
+        rep.violation('model/gk-internals', gk_internals_missing, dict(reason=gk_internals_missing), found_input=False)
     if not ok and not rep.violations:
         rep.violation('lean', 'Lean side of C19 no longer checks: ' + why, dict(reason=why), found_input=False)
     rep.assumptions += [
